@@ -1,7 +1,7 @@
 (* C20: external variables are typed, scoped and isolated.
    Statements only; proofs in Proofs/ExternalsProofs.v over Model/Externals.v (the three define
    families exactly as compiler.c / rules.c / scanner.c have them, tied to /repo by checks/c20.py). *)
-From Coq Require Import List NArith ZArith.
+From Coq Require Import List NArith ZArith QArith.
 From YV Require Import Base.Bytes gen.GenConsts Model.Externals Proofs.ExternalsProofs.
 Import ListNotations.
 
@@ -78,3 +78,44 @@ Theorem externals_behave_as_literals : forall env env' c b,
   eval_cond env c = Some b -> eval_cond env' (subst_c env c) = Some b.
 Proof. exact externals_behave_as_literals_proof. Qed.
 Print Assumptions externals_behave_as_literals.
+
+(* the most specific value.  NOT proved in closed form over histories: the specification
+   [spec_scanner] (scanner definition if any, else the rule-set value when the scanner was created,
+   else the compile-time value; Model/Externals.v) is only evaluated against the state machine
+   ([most_specific_value_example]) and exercised by checks/c20.py.  Proved are the four steps the
+   closed form is the induction of: *)
+Theorem most_specific_value_partial :
+  (* 1. creation copies the rule-set table as it is at that moment *)
+  (forall w k w' rs ob, w_rules w = Some rs -> slot_get k (w_scanners w) = None -> scanner_objs rs [] = inl ob ->
+     step w (OCreate k) = (w', Res ROk) -> slot_get k (w_scanners w') = Some ob /\ w_rules w' = Some rs) /\
+  (* 2. an accepted scanner-level definition replaces that scanner's value and nothing else *)
+  (forall o x d o', scanner_define o x d = (o', ROk) ->
+     lookup x o' = Some (dval_payload d) /\ forall y, y <> x -> lookup y o' = lookup y o) /\
+  (* 3. later rule-set definitions do not reach it *)
+  (forall w x d w' r, step w (ORDef x d) = (w', r) -> w_scanners w' = w_scanners w /\ w_comp w' = w_comp w) /\
+  (* 4. a scan sees exactly its scanner's table *)
+  (forall w k ob, slot_get k (w_scanners w) = Some ob -> step w (OScan k) = (w, Seen ob)).
+Proof.
+  exact (conj create_snapshots_rules_proof (conj scanner_define_sets_proof
+          (conj rules_defs_leave_scanners_proof scan_sees_own_objects_proof))).
+Qed.
+Print Assumptions most_specific_value_partial.
+
+Example most_specific_value_example :
+  let w := run_state world0 ([OCDef 1%N (DI 5); OCDef 2%N (DS (Some [97%N])); OCDef 1%N (DF (1#2)); OGetRules] ++ msv_history) in
+  forall k x decl, In (k, x, decl) [(0%nat, 1%N, (XInt, PI 5)); (1%nat, 1%N, (XInt, PI 5)); (2%nat, 1%N, (XInt, PI 5));
+                                    (0%nat, 2%N, (XStr, PS [97%N])); (1%nat, 2%N, (XStr, PS [97%N])); (2%nat, 2%N, (XStr, PS [97%N]))] ->
+  match slot_get k (w_scanners w) with Some ob => lookup x ob | None => None end = spec_scanner (rev msv_history) decl k x.
+Proof. exact msv_example_proof. Qed.
+
+(* non-vacuity of the hypotheses of the theorems above: a world with a rule set, two scanners, and
+   definitions of every outcome *)
+Example c20_hypotheses_satisfiable :
+  snd (run world0 [OCDef 1%N (DI 5); OCDef 2%N (DS (Some [97%N])); OCDef 1%N (DB 1); OGetRules; OCreate 0%nat; OCreate 1%nat;
+                   ORDef 1%N (DB 1); ORDef 9%N (DI 1); ORDef 2%N (DS None); OSDef 0%nat 1%N (DB 7); OSDef 0%nat 2%N (DI 1);
+                   OSDef 0%nat 9%N (DI 1); OScan 0%nat; OScan 1%nat]) =
+  [Res ROk; Res ROk; Res (RErr ERROR_DUPLICATED_EXTERNAL_VARIABLE); Res ROk; Res ROk; Res ROk;
+   Res (RErr ERROR_INVALID_EXTERNAL_VARIABLE_TYPE); Res (RErr ERROR_INVALID_ARGUMENT); Res (RErr ERROR_INVALID_ARGUMENT);
+   Res ROk; Res (RErr ERROR_INVALID_EXTERNAL_VARIABLE_TYPE); Res (RErr ERROR_INVALID_ARGUMENT);
+   Seen [(1%N, PI 7); (2%N, PS [97%N])]; Seen [(1%N, PI 5); (2%N, PS [97%N])]].
+Proof. reflexivity. Qed.
